@@ -252,7 +252,9 @@ def padding_grid(ctx, ev):
             chosen = None
             n_pairs += 1
             try:
-                for o in outs:
+                # exits that raise first: when the body of a followed helper raises, its normal exit (merged into one conditional
+                # value) carries no condition of its own - the raise pre-empts it
+                for o in sorted(outs, key=lambda o_: o_.kind != "raise"):
                     if all(bool(teval(c, env)) for c in o.conds):
                         chosen = o
                         break
